@@ -6,7 +6,7 @@ from the engines' export tables only — not from activate's loop), and the name
 -/
 import SqlframeModel.Impl.C20Activate
 namespace Sqlframe.C20
-open Sqlframe.Gen.Act
+open Sqlframe.Gen.Act Sqlframe.Gen.ActS
 
 /-! ### documented import paths -/
 
@@ -109,6 +109,32 @@ def specActivate (env : Env) (eng : Option String) (conn : Option Nat) (dialect 
     if (prefixOf e).isNone || env.brokenPkgs.contains e then (s, .raises)
     else ({ s with active := some e }, .noRaise)
 
+/-- the connection / dialect the documentation promises the next session: those of the stored configuration -/
+def specDialect (s : Spec) : String :=
+  match aget s.config "sqlframe.input.dialect" with | some (.str x) => x | _ => "spark"
+
+def specConn (s : Spec) : ConnV :=
+  match aget s.config "sqlframe.conn" with | some (.conn n) => .given n | _ => .default
+
+/-- what `SparkSession.builder.getOrCreate()` must yield: the active engine's session with the stored connection and
+    dialect; an unknown dialect must be refused; on a connection that cannot be used (the fault of the property's
+    quantifier: "exception raised by session creation") the creation raises — and must leave nothing behind, which is
+    what the following events then show -/
+def sessionWant (env : Env) (s : Spec) : Want :=
+  match s.active with
+  | some e =>
+    if e = "duckdb" || e = "standalone" then
+      let d := specDialect s
+      if !(validDialects.contains d) then .raises
+      else if e = "standalone" then .session e .none d
+      else if connIsBad env (specConn s) then .raises
+      else .session e (specConn s) d
+    else .any
+  | none => if s.mocked then .any else
+            match env.find "pyspark.sql" with
+            | none => .raises
+            | some r => if r.raises.isSome then .raises else .real
+
 def specStep (env : Env) (s : Spec) : Event → Spec × Want
   | .activate e c d => specActivate env e c d s
   | .deactivate => ({ s with active := none, mocked := false, config := [] }, .noRaise)
@@ -148,21 +174,7 @@ def specStep (env : Env) (s : Spec) : Event → Spec × Want
                     | none => .real)
                  | _ => .real)
        else (s, .any))
-  | .sessionCreate =>
-    (match s.active with
-     | some e =>
-       if e = "duckdb" || e = "standalone" then
-         let d := match aget s.config "sqlframe.input.dialect" with | some (.str x) => x | _ => "spark"
-         if !(validDialects.contains d) then (s, .raises)
-         else
-           let c := if e = "standalone" then ConnV.none
-                    else match aget s.config "sqlframe.conn" with | some (.conn n) => .given n | _ => .default
-           (s, .session e c d)
-       else (s, .any)
-     | none => (s, if s.mocked then .any else
-                   match env.find "pyspark.sql" with
-                   | none => .raises
-                   | some r => if r.raises.isSome then .raises else .real))
+  | .sessionCreate => (s, sessionWant env s)
 
 def specTrace (env : Env) (s : Spec) : List Event → List (Want × Spec)
   | [] => []
@@ -182,9 +194,12 @@ def Want.meets : Want → Outcome → Bool
   | .session e c d, .session e' c' d' => e == e' && c == c' && d == d'
   | .session _ _ _, _ => false
 
+/-- every config dict the caller handed to an activation still has exactly the content it was created with -/
+def callerIntact (st : State) : Bool := st.caller.all (fun dc => dc.2 == callerInit dc.1)
+
 /-- is the import state consistent with the specification's state? every documented key is owned by the
     active engine / is real or absent when nothing is active; the mock is installed iff `mocked`;
-    the stored configuration is the expected one -/
+    the stored configuration is the expected one; the caller's own config dicts are untouched -/
 def stateMeets (s : Spec) (st : State) : Bool :=
   docSqlKeys.all (fun k =>
     match aget st.mods k with
@@ -201,6 +216,7 @@ def stateMeets (s : Spec) (st : State) : Bool :=
       | some o => !s.mocked && o.isReal
       | none => !s.mocked)
   && st.config == s.config
+  && callerIntact st
 
 /-! ### named scope hypotheses (decidable on the event list and the environment) -/
 
@@ -272,19 +288,52 @@ def ctxNotNested (env : Env) : Spec → List Event → Bool
      | .ctxEnter _ _ _ => s.active.isNone && !s.mocked && s.stack.isEmpty
      | _ => true) && ctxNotNested env (specStep env s ev).1 rest
 
-/-- nothing is activated directly (outside a context) while a context block is open or an engine is active
-    — used together with ctxNotNested to describe "one activation at a time" -/
-def sessionCount : List Event → Nat
-  | [] => 0
-  | .sessionCreate :: rest => sessionCount rest + 1
-  | _ :: rest => sessionCount rest
+/-! #### sessions: what is in scope of the singleton / of the class-level builders
+
+An *attempt* is a `getOrCreate()` that reaches the creation of the session object (an engine with a modelled session is
+active and the dialect is accepted); it is expected to fail only on a bad connection of the duckdb engine. -/
+
+/-- `some (engine, expected to succeed)` if the event, in specification state `s`, is an attempt -/
+def attemptOf (env : Env) (s : Spec) : Option (String × Bool) :=
+  match s.active with
+  | some e =>
+    if (e = "duckdb" || e = "standalone") && validDialects.contains (specDialect s) then
+      some (e, !(e = "duckdb" && connIsBad env (specConn s)))
+    else none
+  | none => none
+
+/-- no attempt after a successful one, and none after an attempt (failed or not) for another engine's class: the
+    object stored by `_BaseSession.__new__` is the process's only session object -/
+def singletonScope (env : Env) : Spec → List (String × Bool) → List Event → Bool
+  | _, _, [] => true
+  | s, prev, ev :: rest =>
+    (match ev with
+     | .sessionCreate =>
+       (match attemptOf env s with
+        | some (e, ok) => prev.all (fun p => p.1 == e && !p.2) && singletonScope env (specStep env s ev).1 ((e, ok) :: prev) rest
+        | none => singletonScope env (specStep env s ev).1 prev rest)
+     | _ => singletonScope env (specStep env s ev).1 prev rest)
+
+def cfgKeys (c : List (String × Cfg)) : List String := (akeys c).filter (fun k => k == "sqlframe.conn" || k == "sqlframe.input.dialect")
+
+/-- every `getOrCreate()` under an engine gives (again) every setting that an earlier `getOrCreate()` under the same
+    engine was given: the engine's `Builder` object is a class attribute and keeps what it was told -/
+def builderScope (env : Env) : Spec → List (String × List String) → List Event → Bool
+  | _, _, [] => true
+  | s, prev, ev :: rest =>
+    (match ev, s.active with
+     | .sessionCreate, some e =>
+       (prev.all (fun p => p.1 != e || p.2.all (fun k => (cfgKeys s.config).contains k)))
+       && builderScope env (specStep env s ev).1 ((e, cfgKeys s.config) :: prev) rest
+     | _, _ => builderScope env (specStep env s ev).1 prev rest)
 
 def H_ctxFinally (evs : List Event) : Bool := !(evs.any Event.uncleanExit)
 def H_functionsRebound (env : Env) (evs : List Event) : Bool := preimportFunctions || noActivationAfterFunctions env evs
 def H_ctxNotNested (env : Env) (evs : List Event) : Bool := ctxNotNested env Spec.init evs
 def H_realImportsOk (env : Env) (evs : List Event) : Bool :=
   deactGuarded deactSteps || env.real.all (·.raises.isNone) || !(evs.any Event.deactivates)
-def H_sessionSingleton (evs : List Event) : Bool := sessionCount evs ≤ 1
+def H_sessionSingleton (env : Env) (evs : List Event) : Bool := singletonScope env Spec.init [] evs
+def H_builderFresh (env : Env) (evs : List Event) : Bool := builderScope env Spec.init [] evs
 def H_knownEngine (evs : List Event) : Bool := !(evs.any Event.unknownEngine)
 def H_noBareReactivation (env : Env) (evs : List Event) : Bool := noBareReactivation env Spec.init evs
 
@@ -293,7 +342,8 @@ def violated (env : Env) (evs : List Event) : List String :=
   ++ (if H_functionsRebound env evs then [] else ["H_functionsRebound"])
   ++ (if H_ctxNotNested env evs then [] else ["H_ctxNotNested"])
   ++ (if H_realImportsOk env evs then [] else ["H_realImportsOk"])
-  ++ (if H_sessionSingleton evs then [] else ["H_sessionSingleton"])
+  ++ (if H_sessionSingleton env evs then [] else ["H_sessionSingleton"])
+  ++ (if H_builderFresh env evs then [] else ["H_builderFresh"])
   ++ (if H_knownEngine evs then [] else ["H_knownEngine"])
   ++ (if H_noBareReactivation env evs then [] else ["H_noBareReactivation"])
 
